@@ -1,8 +1,8 @@
 #!/usr/bin/env python3
 """mkprompt.py <PROP> <va> <vb> -- print the seeding prompt of one property (property text only)"""
-import json, sys
+import json, os, sys
 prop, va, vb = sys.argv[1:4]
-tmpl = open('/verif/tools/seed_prompt_r5.txt').read()
+tmpl = open('/verif/tools/' + os.environ.get('SEED_PROMPT', 'seed_prompt_r5.txt')).read()
 for l in open('/verif/properties.jsonl'):
     p = json.loads(l)
     if p['id'] == prop:
